@@ -243,8 +243,21 @@ def pool():
     global _pool
     if _pool is None:
         import multiprocessing as mp
-        _pool = mp.get_context("fork").Pool(min(16, os.cpu_count() or 1))
+        _pool = mp.get_context("fork").Pool(min(16, os.cpu_count() or 1), initializer=_worker_init)
     return _pool
+
+
+def _worker_init():
+    """kill -USR1 <worker pid> dumps its Python stack to work/stack_<pid>.txt (diagnosis of a stuck check)."""
+    import faulthandler
+    import signal
+    try:
+        d = os.path.join(os.path.dirname(os.path.dirname(os.path.abspath(__file__))), "work")
+        os.makedirs(d, exist_ok=True)
+        f = open(os.path.join(d, f"stack_{os.getpid()}.txt"), "w")
+        faulthandler.register(signal.SIGUSR1, file=f, all_threads=True)
+    except Exception:  # noqa: BLE001
+        pass
 
 
 def pmap(fn, items, chunksize=None):
